@@ -376,8 +376,9 @@ register('C14', 'proof',
          '(instance load + requests, node load); *_NODE on (node load, instance load); LOCAL = the local identifier iff '
          'candidate and valid; None iff no valid candidate), the total dispatch of create_strategy, the module-level '
          'get_supvisors_instance (RUNNING filter + per-strategy optimality over the abstract loads) and get_node.',
-         not_decided=['the sums themselves: get_load(), get_nodes_load() and get_node_load_request_map() are abstracted by '
-                      'ghost quantities L(i), NL(m), NR(m) (assumed contracts GetLoad, GetNodesLoad, GetNodeLoadRequestMap)',
+         not_decided=['the sums of get_load() and get_nodes_load() (python sum() over generators) are abstracted by the ghost '
+                      'quantities L(i), NL(m) (assumed contracts GetLoad, GetNodesLoad); get_node_load_request_map() is PROVED '
+                      'to return, per machine, the sum of the requests of all its identifiers (loop invariant over setsum)',
                       'distribute_to_single_instance / distribute_to_single_node / on_command_added (DESIGN C14.4, '
                       'Appendix A23) are not under contract yet',
                       'ties beyond the documented keys (the statement leaves them open)'],
